@@ -377,7 +377,7 @@ func (w *world) checkSurvivors() {
 			return
 		}
 		for _, cn := range p.allCounters() {
-			if !recordable(cn.Name()) || w.satur {
+			if !recordable(cn.Name()) || (w.satur && w.nearLimit(cn.Name())) {
 				continue
 			}
 			if _, _, _, extra, _ := cn.VerifState(); extra != 0 {
@@ -397,7 +397,7 @@ func (w *world) checkSurvivors() {
 		if !recordable(n) {
 			continue // its counts stay in the processes' memory by design
 		}
-		if w.satur {
+		if w.satur && w.nearLimit(n) {
 			// near the limit of a record only the per-instant clauses apply
 			// (well-formed, never above what was begun, never decreasing)
 			continue
@@ -415,6 +415,12 @@ func (w *world) checkSurvivors() {
 			return
 		}
 	}
+}
+
+// nearLimit: amounts large enough were begun on the name for the in-memory
+// extra field or the record itself to stick at its limit.
+func (w *world) nearLimit(name string) bool {
+	return w.begunHi[name] > 0 || w.begun[name] >= uint64(1)<<33-1
 }
 
 var _ = counter.VerifPageSize
